@@ -10,6 +10,7 @@ mod props_algo;
 mod props_gen;
 mod props_model;
 mod props_path;
+mod props_total;
 mod props_xml;
 mod rng;
 
@@ -81,6 +82,7 @@ fn main() {
         "C19" => props_xml::run_c19(&a),
         "C16" => props_gen::run_c16(&a),
         "C17" => props_gen::run_c17(&a),
+        "C20" => props_total::run_c20(&a),
         "C15" => props_model::run_c15(&a),
         other => {
             eprintln!("unknown property {}", other);
